@@ -39,9 +39,9 @@ TEXT = {
  "C09": ("exploration", "sessions with concurrent writers, forced handshake retransmissions, alerts, 1.3 key updates, export/import seams and counters rewritten to 2^48-j; sequence numbers read off the wire (1.3 via independent decoder) must strictly increase per epoch",
          "emission order = order of WriteTo calls on the injected PacketConn; goroutine interleavings are those the scheduler produces",
          "property-based testing (rapid) of operation schedules; oracle = strict monotonicity invariant over the tapped history"),
- "C12": ("exploration", "generated partitions/permutations of handshake fragments against a byte-level reference reassembler; small space (2 messages, len<=3/4) enumerated exhaustively; long sessions (150..420 multi-fragment messages through one buffer)",
-         "trusted: reference reassembler in harness/c12; fragments are partitions (no overlapping re-partitions)",
-         "property-based testing (rapid) + exhaustive small-space enumeration against a reference model"),
+ "C12": ("exploration", "generated partitions/permutations of handshake fragments against a byte-level reference reassembler; small space (2 messages, len<=3/4) enumerated exhaustively; long sessions (150..420 multi-fragment messages through one buffer); overlapping / gapped fragment ranges (safety half); sender side: live handshakes at every MTU 24..900, no fragment larger than the MTU; records of a flight delivered in permuted order inside a live connection must complete at virtual time 0",
+         "trusted: reference reassembler in harness/c12; liveness (every message surfaces) is asserted only when the fragments tile every message",
+         "property-based testing (rapid) + exhaustive small-space enumeration against a reference model; native coverage-guided fuzzing (thorough); live-connection grids on a virtual network"),
  "C13": ("exploration", "raw client built by byte surgery on a genuine ClientHello: sequences of second hellos (cookie variant x body alteration x repetition x virtual-time gap x fragmentation), both versions; grid of cookie x alteration enumerated",
          "cookie unpredictability not testable; judged on what the server emits and at which virtual instants",
          "property-based testing (rapid) + enumerated grid against a live server on a virtual clock; oracle = only cookie requests/alerts, only at receipt instants, bounded bytes, until the exact echo"),
